@@ -180,7 +180,7 @@ ITERS = (
 )
 
 
-def battery(world, snap, qseed, heavy=True, exporters=True, helpers=True):
+def battery(world, snap, qseed, heavy=True, exporters=True, helpers=True, part=None):
     """List of (label, index-mapped result).  `snap` is the observed snapshot
     (used only to choose parameters, identically for both twins)."""
     rng = random.Random(qseed)
@@ -191,10 +191,15 @@ def battery(world, snap, qseed, heavy=True, exporters=True, helpers=True):
     add = out.append
     roots = [i for i in range(n) if snap[i][0] is None]
     # 1. navigation
+    prng = random.Random(qseed ^ 0x5A5A)
     for i in range(n):
         node = nodes[i]
         for attr in NAV_ATTRS:
+            if part is not None and prng.random() > part:
+                continue
             add(("nav", i, attr, outcome(lambda: lib_nav_one(world, node, attr))))
+        if part is not None and prng.random() > part:
+            continue
         add(("nav", i, "children", outcome(lambda: _idx(world, node.children))))
         add(("nav", i, "parent", outcome(lambda: ix(node.parent))))
         if helpers:
@@ -252,7 +257,12 @@ def battery(world, snap, qseed, heavy=True, exporters=True, helpers=True):
         for j in range(n):
             add(("walk", i, j, outcome(lambda: _idx(world, w.walk(nodes[i], nodes[j])))))
     # 6. Resolver
-    names = [str(getattr(nd, "name", None)) for nd in nodes]
+    names = []
+    for nd in nodes:
+        try:
+            names.append(str(getattr(nd, "name", None)))
+        except Exception:  # noqa: BLE001  (a broken forwarding path; the probe/differential reports it)
+            names.append("?")
     resolvers = (("strict", Resolver("name")), ("relaxed", Resolver("name", relax=True)),
                  ("nocase", Resolver("name", ignorecase=True)))
     sep = "/"
